@@ -186,10 +186,10 @@ theorem FInv.fblk {F : Nat} {s : State} (h : FInv F s) {i blk : Nat} (hmem : blk
   omega
 
 theorem allocMulti_ok_or_oom {F : Nat} {s : State} (n : Nat) (h : FInv F s) (hnb : NB F s) :
-    (∃ ps s', allocMulti s n = .ok (ps, s')) ∨ allocMulti s n = .error .oom := by
+    (∃ ps s', allocMultiPos s n = .ok (ps, s')) ∨ allocMultiPos s n = .error .oom := by
   have hnb' : s.nbits = 64 * (2 ^ F / 64 + 1) := hnb
   have hlen : s.free.length - 1 = F := by rw [h.hlen]; omega
-  unfold allocMulti
+  unfold allocMultiPos
   simp only [hlen]
   by_cases hord : F < ordOf (n * 4096)
   · right; simp [hord]
@@ -233,7 +233,7 @@ theorem allocMulti_ok_or_oom {F : Nat} {s : State} (n : Nat) (h : FInv F s) (hnb
 
 /-- every page of a successful allocation lies inside the device -/
 theorem allocMulti_pages_inDev {F : Nat} {s s' : State} {n : Nat} {ps : List Nat} (h : FInv F s)
-    (ha : allocMulti s n = .ok (ps, s')) : ∀ p ∈ ps, inDev s' p = true := by
+    (ha : allocMultiPos s n = .ok (ps, s')) : ∀ p ∈ ps, inDev s' p = true := by
   obtain ⟨i, level, blk, rest, hord, hlevel, hile, hbr, hpages, hb, hz, -, -⟩ :=
     allocMulti_ok ha (by rw [h.hlen]; omega)
   have hmem : blk ∈ lvl s.free i := by rw [hbr]; exact List.mem_cons_self
@@ -254,7 +254,7 @@ theorem allocMulti_pages_inDev {F : Nat} {s s' : State} {n : Nat} {ps : List Nat
 
 /-- allocation under FInv: succeeds (pages inside the device) or out of memory -/
 theorem allocMulti_total_f {F : Nat} {s : State} (n : Nat) (h : FInv F s) (hnb : NB F s) :
-    (∃ ps s', allocMulti s n = .ok (ps, s') ∧ (∀ p ∈ ps, inDev s' p = true)) ∨ allocMulti s n = .error .oom := by
+    (∃ ps s', allocMultiPos s n = .ok (ps, s') ∧ (∀ p ∈ ps, inDev s' p = true)) ∨ allocMultiPos s n = .error .oom := by
   rcases allocMulti_ok_or_oom n h hnb with ⟨ps, s', ha⟩ | ha
   · exact Or.inl ⟨ps, s', ha, allocMulti_pages_inDev h ha⟩
   · exact Or.inr ha
@@ -264,6 +264,7 @@ theorem allocMulti_total_f {F : Nat} {s : State} (n : Nat) (h : FInv F s) (hnb :
 theorem popOne_cases_f {F : Nat} {s : State} (h : FInv F s) (hnb : NB F s) :
     (∃ p s', popOne s = .ok (p, s') ∧ NB F s') ∨ popOne s = .error .oom := by
   unfold popOne
+  rw [allocMulti_pos s (by decide)]
   split
   · right; rfl
   · rcases allocMulti_total_f 1 h hnb with ⟨ps, s1, ha, hin⟩ | ha
@@ -298,7 +299,14 @@ theorem popN_cases_f {F : Nat} : ∀ (k : Nat) (s : State), FInv F s → NB F s 
 
 theorem amOp_cases_f {F : Nat} {s : State} (n : Nat) (h : FInv F s) (hnb : NB F s) :
     (∃ ps s', amOp s n = .ok (ps, s') ∧ NB F s') ∨ amOp s n = .error .oom := by
+  by_cases hn0 : n = 0
+  · subst hn0
+    rw [amOp_zero]
+    split
+    · right; rfl
+    · left; exact ⟨[], s, rfl, hnb⟩
   unfold amOp
+  rw [allocMulti_pos s hn0]
   split
   · right; rfl
   · rcases allocMulti_total_f n h hnb with ⟨ps, s1, ha, hin⟩ | ha
